@@ -250,6 +250,12 @@ def oracle(sc: Scenario, run: ctl.Run, props):
         # ---- C04 timeout: no completion at all for more than `timeout` ticks while the caller waits for a batch of this call
         if sc.timeout >= 0 and run.max_idle_with_parked.get(cno, 0) >= sc.timeout + 2 and raised is None and not cut:
             bad.append(("C04", "timeout-not-raised", dict(call=cno, idle_ticks=run.max_idle_with_parked.get(cno), timeout=sc.timeout)))
+        # ---- C04 timeout, the converse: TimeoutError only when the caller really waited longer than `timeout` for ONE result
+        # (ordered modes: the batch at the head of the queue; the fake clock advances by one tick per sleep of the retrieval loop)
+        if (raised == "TimeoutError" and sc.timeout >= 0 and sc.ra in (0, 1) and sc.nj > 1
+                and run.max_wait_same_head.get(cno, 0) < sc.timeout):
+            bad.append(("C04", "timeout-raised-without-waiting-that-long-for-one-result",
+                        dict(call=cno, timeout=sc.timeout, longest_wait_for_one_result=run.max_wait_same_head.get(cno, 0))))
         # ---- C01: what the caller would have seen had it evaluated its wait predicate in the middle of a callback
         if clean and not cut:
             idset = set(ids)
